@@ -113,10 +113,17 @@ Section Diag.
         else if r0 =? i then get T i k * 1 + get T (S i) k * 1
         else get T r0 k).
     { intros r0 k H1 H2. apply (get_left_elem D m n); try assumption; lia. }
-    assert (Hg : forall k l, k < m -> l < n -> get T k l = if k =? l then get T k k else 0).
-    { intros. now apply (DiagR_get r). }
     assert (Ha0 : a <> 0). { intros E. apply (Hnz i); [lia|]. rewrite Hx, E. ring. }
     assert (Hb0 : b <> 0). { intros E. apply (Hnz (S i)); [lia|]. rewrite Hy, E. ring. }
+    (* the diagonal as an abstract function: [Hg] must not contain an instance of its own left-hand
+       side, otherwise [rewrite !Hg] does not terminate *)
+    pose (dg := fun k => get T k k).
+    assert (Hg : forall k l, k < m -> l < n -> get T k l = if k =? l then dg k else 0).
+    { intros. unfold dg. now apply (DiagR_get r). }
+    change (dg i = a * d) in Hx. change (dg (S i) = b * d) in Hy.
+    change (forall k, k < r -> dg k <> 0) in Hnz.
+    change (forall k, r <= k -> k < Nat.min m n -> dg k = 0) in Hz.
+    clearbody dg.
     assert (Eii : get T2 i i = d).
     { rewrite HE, !HE1, !Hg by lia. simp_eqb. rewrite Hx, Hy.
       transitivity ((sx * a + ty * b) * d); [ring|]. rewrite Hbz. ring. }
@@ -128,13 +135,13 @@ Section Diag.
     - intros k l Hk Hl Hne. rewrite HE, !HE1, !Hg by lia.
       destruct (Nat.eq_dec l (S i)) as [->|Hl1]; [|destruct (Nat.eq_dec l i) as [->|Hl2]];
         (destruct (Nat.eq_dec k (S i)) as [->|Hk1]; [|destruct (Nat.eq_dec k i) as [->|Hk2]]);
-        try lia; simp_eqb; try rewrite Hx; try rewrite Hy; ring.
-    - intros k Hk. destruct (Nat.eq_dec k i) as [->|Hk1]; [now rewrite Eii|].
+        try lia; simp_eqb; try rewrite Hx; try rewrite Hy; fold o; ring.
+    - intros k Hk. fold o. destruct (Nat.eq_dec k i) as [->|Hk1]; [now rewrite Eii|].
       destruct (Nat.eq_dec k (S i)) as [->|Hk2].
       + rewrite Ess. intros E. destruct (mul_eq_0 D SL _ _ E) as [E1|E1]; [|contradiction].
         destruct (mul_eq_0 D SL _ _ E1); contradiction.
       + rewrite HE, !HE1, !Hg by lia. simp_eqb. apply Hnz; lia.
-    - intros k Hk1 Hk2. rewrite HE, !HE1, !Hg by lia. simp_eqb. apply Hz; lia.
+    - intros k Hk1 Hk2. fold o. rewrite HE, !HE1, !Hg by lia. simp_eqb. apply Hz; lia.
   Qed.
 
   (* one step: the rank-r diagonal shape is kept; `true` means nothing changed and x | y *)
@@ -168,7 +175,7 @@ Section Diag.
     - destruct (diag_normalize_step D i s) as [sb1|] eqn:E; cbn [sbind] in H; [|discriminate].
       apply (diag_step_DiagR i r s sb1) in E; [|apply Hin; now left|exact HD]. destruct E as [HD1 Ht].
       destruct (snd sb1) eqn:B.
-      + destruct (Ht eq_refl) as [-> Hdiv].
+      + destruct (Ht eq_refl) as [Es Hdiv]. rewrite Es in H.
         apply (IH s) in H; [|intros; apply Hin; now right|exact HD]. destruct H as [HD2 Ht2].
         split; [exact HD2|]. intros B2. destruct (Ht2 B2) as [E2 Hall]. split; [exact E2|].
         intros k [<-|Hk]; [exact Hdiv|now apply Hall].
@@ -198,11 +205,11 @@ Section Diag.
                get (m_mul_row D k v T) a b = if a =? k then get T a b * v else get T a b).
     { intros. now apply (get_mul_row D m n). }
     split; [now apply wf_mul_row|]. split; [exact Hr|]. split; [|split].
-    - intros a b Ha Hb Hne. rewrite HE, Hoff by assumption. destruct (a =? k); ring.
-    - intros a Ha. rewrite HE by lia. destruct (a =? k); [|now apply Hnz].
+    - intros a b Ha Hb Hne. fold o. rewrite HE, Hoff by assumption. destruct (a =? k); ring.
+    - intros a Ha. fold o. rewrite HE by lia. destruct (a =? k); [|now apply Hnz].
       intros E. destruct (mul_eq_0 D SL _ _ E) as [E1|E1]; [now apply (Hnz a)|].
       now apply (unit_neq_0 D SL v vi).
-    - intros a Ha1 Ha2. rewrite HE by lia. rewrite Hz by assumption. destruct (a =? k); ring.
+    - intros a Ha1 Ha2. fold o. rewrite HE by lia. rewrite Hz by assumption. destruct (a =? k); ring.
   Qed.
 
   Lemma diag_unit_body_spec k r s s' :
@@ -212,8 +219,8 @@ Section Diag.
   Proof.
     intros Hk HD HC HN. unfold diag_unit_body. cbv zeta. rewrite mget_lget. fold o.
     set (v := rnunit (ed_unit D) (get (st_t s) k k)).
-    destruct (ris_one (ed_ring D) v) eqn:O.
-    - intros E. inversion E; subst s'. split; [exact HD|]. split; [exact HC|].
+    destruct (ris_one o v) eqn:O.
+    - intros E. injection E as <-. split; [exact HD|]. split; [exact HC|].
       intros l Hl. destruct (Nat.eq_dec l k) as [->|]; [|apply HN; lia].
       now apply (is_one_true D SL) in O.
     - destruct (sl_nunit_inv D SL (get (st_t s) k k)) as [vi Hvi]. fold v in Hvi.
